@@ -23,6 +23,7 @@ RULE = (
     "Non-trivial = the object is curved and the matrix is not a similarity, or det < 0; distinct by the case."
 )
 ASSUMPTIONS = [
+    "a Matrix object handed to a constructor (transform=M) remains the caller's: two objects are built with one M, one is reified or multiplied in place, the other must still be the image under M and M itself unchanged",
     "the original's points are the library's own untransformed point(t) (their correctness is C01/C05/C06's subject); "
     "the matrix is applied by harness arithmetic",
     "arcs: tolerance grows with (aspect ratio of the arc x condition number of the matrix)^2 * 1e-15, the conditioning "
